@@ -15,7 +15,7 @@
 //!   * is_hidden() is true.
 //! Correspondence: the Case-expressible systems ((a), (c) with a hidden() multi, (d), mixed) are
 //! compared with model/Sys.v through sys_check (emitted calls, io results, getters per op).
-use indicatif::{MultiProgress, ProgressBar, ProgressDrawTarget, ProgressFinish};
+use indicatif::{MultiProgress, ProgressBar, ProgressDrawTarget, ProgressFinish, ProgressStyle};
 use std::io::Write;
 use std::os::fd::{AsRawFd, RawFd};
 use std::sync::{Arc, Mutex};
@@ -334,6 +334,99 @@ fn run_manual(
     Ok(out)
 }
 
+/// Texts with TABs and changing tab widths, which the Case/Op vocabulary of sysrun.rs does not
+/// have (its set_tab_width always passes 8 and its texts have no tab): the same call sequence on a
+/// hidden bar (hidden target / removed from its MultiProgress / member of a hidden MultiProgress)
+/// and on a visible twin; message() prefix() position() length() is_finished() must agree after
+/// every call, and the hidden one must make no TermLike call.  Oracle only.
+fn tab_twins(s: &mut Session, r: &mut Rng, n: usize) {
+    const TEXTS: [&str; 8] = ["a\tb", "\tdown\tloading", "x", "p\t\tq", "", "tab at end\t", "no tab", "\t"];
+    for i in 0..n {
+        let way = i % 3;
+        let hidden_spy = Spy::new(40, 20);
+        let twin_spy = Spy::new(40, 20);
+        let mut calls: Vec<String> = vec![];
+        let res = catch(|| {
+            let style = || ProgressStyle::with_template("{prefix}|{msg}|{pos}/{len}").unwrap();
+            let mp_hidden = MultiProgress::with_draw_target(ProgressDrawTarget::hidden());
+            let mp_vis = MultiProgress::with_draw_target(ProgressDrawTarget::term_like(Box::new(hidden_spy.clone())));
+            let hid = match way {
+                0 => ProgressBar::with_draw_target(Some(10), ProgressDrawTarget::hidden()),
+                1 => mp_hidden.add(ProgressBar::new(10)),
+                _ => {
+                    let b = mp_vis.add(ProgressBar::new(10));
+                    mp_vis.remove(&b);
+                    b
+                }
+            };
+            hid.set_style(style());
+            let vis = ProgressBar::with_draw_target(Some(10), ProgressDrawTarget::term_like(Box::new(twin_spy.clone())));
+            vis.set_style(style());
+            hidden_spy.take();
+            let mut out = vec![];
+            let len = 4 + (r.below(10) as usize);
+            for _ in 0..len {
+                let k = r.below(7);
+                let t = r.pick(&TEXTS).to_string();
+                let w = *r.pick(&[0usize, 1, 2, 3, 4, 8, 13]);
+                let desc = match k {
+                    0 | 1 => {
+                        hid.set_message(t.clone());
+                        vis.set_message(t.clone());
+                        format!("set_message({t:?})")
+                    }
+                    2 => {
+                        hid.set_prefix(t.clone());
+                        vis.set_prefix(t.clone());
+                        format!("set_prefix({t:?})")
+                    }
+                    3 | 4 => {
+                        hid.set_tab_width(w);
+                        vis.set_tab_width(w);
+                        format!("set_tab_width({w})")
+                    }
+                    5 => {
+                        hid.inc(1);
+                        vis.inc(1);
+                        "inc(1)".to_string()
+                    }
+                    _ => {
+                        hid.finish_with_message(t.clone());
+                        vis.finish_with_message(t.clone());
+                        format!("finish_with_message({t:?})")
+                    }
+                };
+                out.push((desc, get(&hid), get(&vis), hidden_spy.take().len()));
+            }
+            out
+        });
+        let wname = ["hidden-target", "hidden-multi", "removed"][way];
+        match res {
+            Err(e) => s.fail("panic", format!("tab twins: {e}"), format!("tab-twins way={wname}")),
+            Ok(out) => {
+                for (desc, gh, gv, ncalls) in &out {
+                    calls.push(desc.clone());
+                    let d = format!("tab-twins way={wname} calls={calls:?}");
+                    if gh != gv {
+                        s.fail(
+                            &format!("hidden-getter-mismatch:{wname}"),
+                            format!("after {desc}: hidden {gh:?} vs visible twin {gv:?}"),
+                            d.clone(),
+                        );
+                        break;
+                    }
+                    if *ncalls != 0 {
+                        s.fail(&format!("hidden-target-call:{wname}"), format!("{desc} on a hidden bar made {ncalls} TermLike calls"), d);
+                        break;
+                    }
+                }
+                s.count("tab-twins");
+                s.oracle_only(format!("tab-twins way={wname} calls={calls:?}"), out.len() >= 4);
+            }
+        }
+    }
+}
+
 fn main() {
     let a = args();
     let mut s = Session::new(&a, "C06", COQ_HEADER, COQ_CASE_TY, COQ_CHECKER);
@@ -449,5 +542,6 @@ fn main() {
         }
     }
     let _ = std::fs::remove_file(&nontty.path);
+    tab_twins(&mut s, &mut r, if a.thorough { 1500 } else { 200 });
     s.finish();
 }
